@@ -762,18 +762,14 @@ impl JxlImage {
         let frame_header = frame.header();
         let name = frame_header.name.clone();
         let duration = frame_header.duration;
+        // The frame that was rendered: not the loading one when only its header has arrived.
+        let (x0, y0) = (frame_header.x0, frame_header.y0);
 
         let image_region = self
             .ctx
             .image_region()
             .apply_orientation(&self.image_header);
-        let frame = self
-            .ctx
-            .frame(self.ctx.loaded_frames())
-            .or_else(|| self.ctx.frame(self.ctx.loaded_frames() - 1))
-            .unwrap();
-        let frame_header = frame.header();
-        let target_frame_region = image_region.translate(-frame_header.x0, -frame_header.y0);
+        let target_frame_region = image_region.translate(-x0, -y0);
 
         let is_cmyk = self.ctx.requested_color_encoding().is_cmyk();
         let result = Render {
